@@ -777,6 +777,8 @@ def collapse_fragments(events, was_fragment):
     event [2, src, time, seq, 0, 0, 0, dst, route]; their number and sizes are C05's subject. '''
     out = []
     for evt in events:
+        if evt == [4, 0] and out and out[-1] == [4, 0] and not was_fragment:
+            continue    # one failed send_bundle per fragment (route without CL): the model records one
         if evt[0] == 1 and evt[4] == 1 and not was_fragment:
             merged = [2] + evt[1:4] + [0, 0, 0] + evt[7:9]
             if out and out[-1] == merged:
